@@ -113,3 +113,34 @@ func EnumPartDebug(prop, tier string, part, parts int) {
 		fmt.Printf("  %s: %s\n", f.Kind, f.Msg)
 	}
 }
+
+// RacePass runs the default schedule and every single-deviation schedule of
+// each scenario of a property with the scheduler detached. It is meant to be
+// built with -race: the race detector reports go to stderr.
+func RacePass(prop string, limit int) {
+	c := Registry[prop]
+	if c == nil || c.Scenarios == nil {
+		return
+	}
+	n := 0
+	for _, sc := range c.Scenarios("quick") {
+		x := mc.RunOnce(sc, nil, mc.RunOpts{Free: true})
+		n++
+		// a few named deviations, replayed free-running (names may not be enabled: divergence is fine)
+		y := mc.RunOnce(sc, nil, mc.RunOpts{})
+		k := 0
+		for i, p := range y.Points {
+			for alt := 1; alt < len(p.Enabled) && k < limit; alt++ {
+				if len(p.Enabled[alt]) > 4 && p.Enabled[alt][:4] == "step" {
+					continue
+				}
+				pre := append(append([]string(nil), y.Choices[:i]...), p.Enabled[alt])
+				mc.RunOnce(sc, pre, mc.RunOpts{Free: true})
+				k++
+				n++
+			}
+		}
+		_ = x
+	}
+	fmt.Printf("race pass %s: %d free-running executions\n", prop, n)
+}
